@@ -232,6 +232,17 @@ def assemble(template_path, unit, default_props, skip_fns=None):
             asm.dropped.append('const %s: the function pointers of the rows are kept as names only (ParseFnName); the table becomes three spec functions over %s' % (kv['name'], en))
             i += 1
             continue
+        if s.startswith('//@binop '):
+            # `//@binop Subtract => Value::Number(a - b)`: what the numeric operator's closure computes (the language's definition)
+            mb_ = re.match(r'//@binop\s+(\w+)\s*=>\s*(.*)$', s)
+            if not mb_:
+                raise ExtractError("bad //@binop line: %s" % s)
+            if not hasattr(asm, '_binops'):
+                asm._binops = {}
+            asm._binops[mb_.group(1)] = mb_.group(2).strip()
+            out.append('// ' + s[3:])
+            i += 1
+            continue
         if s.startswith('//@dispatch '):
             # `//@dispatch file=… fn=Vm::run enum_file=… enum=OpCode`: which variants of the opcode enum have an arm
             # `byte if byte == OpCode::V as u8 =>` in the interpreter loop. Generated from the real function on every run.
@@ -255,6 +266,43 @@ def assemble(template_path, unit, default_props, skip_fns=None):
                        % (en, ' '.join('%s::%s => %s,' % (en, v, 'true' if v in armed else 'false') for v in vs)))
             out.append('pub spec const DISPATCH_ARMS: int = %d;' % len(armed))
             out.append('pub spec const ARMS_NAMING_NO_VARIANT: int = %d;' % len([a for a in armed if a not in vs]))
+            # which handler each arm calls: `OpCode::V` -> `self.<snake(V)>_impl(…)` (aliases / inline arms / numeric
+            # operators are declared on the directive); numeric operators: the closure handed to binary_op_impl,
+            # compared (whitespace-insensitively) with the definition given by `//@binop V => <closure body>` lines
+            if kv.get('handlers'):
+                arms_ = [(m_.group(1), m_.end()) for m_ in re.finditer(r'\b\w+\s+if\s+\w+\s*==\s*%s::(\w+)\s+as\s+u8\s*=>' % re.escape(en), code)]
+                alias_ = dict(x.split(':') for x in kv.get('alias', '').split(',') if x)
+                inline_ = set(x for x in kv.get('inline', '').split(',') if x)
+                binops_ = getattr(asm, '_binops', {})
+                wrong_, wrong_ops_ = [], []
+                def snake_(v_):
+                    return re.sub(r'(?<!^)(?=[A-Z])', '_', v_).lower()
+                for k_, (v_, st_) in enumerate(arms_):
+                    en_ = arms_[k_ + 1][1] if k_ + 1 < len(arms_) else len(code)
+                    arm_ = code[st_:en_]
+                    if k_ + 1 < len(arms_):
+                        arm_ = arm_[:arm_.rfind('\n')] if '\n' in arm_ else arm_
+                    calls_ = re.findall(r'\bself\s*\.\s*(\w+)\s*\(', arm_)
+                    if v_ in inline_:
+                        continue
+                    if v_ in binops_:
+                        want_ = 'binary_op_impl'
+                        mcl_ = re.search(r'binary_op_impl\s*\(\s*\|\s*a\s*,\s*b\s*\|', arm_)
+                        body_ = None
+                        if mcl_:
+                            op_ = arm_.index('(', mcl_.start())
+                            cl_ = rsx.match_close(arm_, rsx.code_mask(arm_), op_, '(', ')')
+                            body_ = arm_[mcl_.end():cl_].strip()
+                            if body_.startswith('{') and body_.endswith('}'):
+                                body_ = body_[1:-1]
+                        if body_ is None or _norm(body_).replace(' ', '') != _norm(binops_[v_]).replace(' ', ''):
+                            wrong_ops_.append(v_)
+                    else:
+                        want_ = alias_.get(v_, snake_(v_) + '_impl')
+                    if not calls_ or calls_[0] != want_:
+                        wrong_.append('%s->%s' % (v_, calls_[0] if calls_ else '?'))
+                out.append('pub spec const ARMS_CALLING_ANOTHER_HANDLER: int = %d;  // %s' % (len(wrong_), ', '.join(wrong_) or 'none'))
+                out.append('pub spec const OPERATOR_ARMS_WITH_ANOTHER_DEFINITION: int = %d;  // %s' % (len(wrong_ops_), ', '.join(wrong_ops_) or 'none'))
             asm.functions.append({'name': '%s (dispatch arms)' % kv['fn'], 'file': kv['file'], 'line': ft.line, 'sha256': ft.sha, 'props': default_props})
             asm.dropped.append('%s: only the guards of its `match byte` arms are read (which opcode each arm handles); the handlers are separate functions' % kv['fn'])
             i += 1
